@@ -37,7 +37,7 @@ def outputs_of(streams) -> list[int]:
     return [i for i, s in enumerate(streams) if not s.consumed]
 
 
-async def run_program(prog: list[dict], schedule: list[int], *, fail_plan=None, fail_mode="status", faults=None, dangling: list[int] | None = None,
+async def run_program(prog: list[dict], schedule: list[int], *, fail_plan=None, fail_mode="status", faults=None, durations=None, dangling: list[int] | None = None,
                       read_tables: bool = False, extra_context: dict | None = None) -> RunResult:
     import vf.engine.harness as hz
     from streamflow.core.workflow import Workflow
@@ -53,7 +53,7 @@ async def run_program(prog: list[dict], schedule: list[int], *, fail_plan=None, 
     ctx = hz.make_context(chaos, extra=extra_context, workdir=workdir)
     try:
         wf = Workflow(context=ctx, name="w", config={})
-        b = build(wf, r.blocks, chaos, workdir=workdir, fail_plan=fail_plan, fail_mode=fail_mode, faults=faults)
+        b = build(wf, r.blocks, chaos, workdir=workdir, fail_plan=fail_plan, fail_mode=fail_mode, faults=faults, durations=durations)
         r.built, r.wf, r.log = b, wf, b.log
         r.outputs = [i for i in outputs_of(r.streams) if i not in (dangling or [])]
         for i in r.outputs:
@@ -140,6 +140,10 @@ def classify(r: RunResult, rec) -> None:
     for b in r.blocks:
         if b["op"] == "cross":
             rec.label(f"cross-{b['mode']}")
+    if r.log is not None and r.log.max_concurrent >= 2:
+        rec.label("jobs-overlap")
+    if r.log is not None and r.log.started and r.log.finished and [j for j in r.log.started if j in r.log.finished] != r.log.finished:
+        rec.label("jobs-finish-out-of-order")
     if any(len(v) >= 10 for b in r.blocks if b["op"] == "scatter" for v in r.ref[b["src"]].values()):
         rec.label("scatter-len>=10")
     if any(len(v) == 0 for b in r.blocks if b["op"] == "scatter" for v in r.ref[b["src"]].values()):
